@@ -569,6 +569,10 @@ def history_definite(model: Model, sw: "SharedWrite") -> bool:
             continue
         if base in ("subscript-aug", "aug-assign") or base.startswith("attr-aug:"):
             return True
+        if base == "method:update" and update_from_arguments(model, sw):
+            return True
+        if base == "defaultdict-read" and enumerated_somewhere(model, sw.obj):
+            return True
         if base in ("method:insert", "method:extend") and any(kk.split(" (")[0] in ("method:clear", "del") for kk, _l, _t in sw.records):
             # a work list that the same code also empties: whether it is empty again when the next call starts is a question of
             # the clearing discipline (try / finally, give-back), not decided here
@@ -584,6 +588,51 @@ def history_definite(model: Model, sw: "SharedWrite") -> bool:
         if base == "subscript-store:key" and store_is_rmw(model, sw.origin_func, sw.origin_line):
             return True
         # (a table grown by  T.append(f(len(T)))  holds position-determined values: single-threaded that is a memo, not history)
+    return False
+
+
+def enumerated_somewhere(model: Model, qual: str) -> bool:
+    """the module-level dict is iterated / counted somewhere in the package (for k in D, D.items(), len(D), sum(D.values()), ...):
+    together with a defaultdict that grows whenever a missing key is READ, what such a loop sees depends on earlier calls"""
+    mod, name = qual.rsplit(".", 1)
+    for fq, fi in model.funcs.items():
+        if fi.module != mod or fi.is_module_body:
+            continue
+        for n in ast.walk(fi.node):
+            it = None
+            if isinstance(n, (ast.For, ast.comprehension)):
+                it = n.iter
+            elif isinstance(n, ast.Call) and isinstance(n.func, ast.Name) and n.func.id in ("len", "sum", "max", "min", "sorted", "list", "tuple", "any", "all") and n.args:
+                it = n.args[0]
+            if it is None:
+                continue
+            for x in ast.walk(it):
+                if isinstance(x, ast.Name) and x.id == name:
+                    return True
+    return False
+
+
+def update_from_arguments(model: Model, sw: "SharedWrite") -> bool:
+    """`SHARED.update(overrides)`: a mapping that came in as an argument of the call is merged into an object that outlives the
+    call (a class-level / module-level / default-value dict), and nothing ever clears that object: what one call configured is
+    what the next call finds"""
+    fi = model.funcs.get(sw.origin_func)
+    if fi is None or any(kk.split(" (")[0] in ("method:clear", "del") for kk, _l, _t in sw.records):
+        return False
+    fn = fi.node
+    params = {a.arg for a in fn.args.args + fn.args.kwonlyargs if a.arg not in ("self", "cls")}
+    if fn.args.kwarg:
+        params.add(fn.args.kwarg.arg)
+    if fn.args.vararg:
+        params.add(fn.args.vararg.arg)
+    lines = {l for kk, l, _t in sw.records if kk.split(" (")[0] == "method:update"}
+    for n in ast.walk(fn):
+        if isinstance(n, ast.Call) and isinstance(n.func, ast.Attribute) and n.func.attr == "update" and getattr(n, "lineno", 0) in lines:
+            used = set()
+            for a in list(n.args) + [k.value for k in n.keywords]:
+                used |= derive_vars(fn, _names(a))
+            if used & params:
+                return True
     return False
 
 
